@@ -27,8 +27,12 @@ func genC14(r *Rng, tier string) *World {
 	c.NoCoerceVariants = true
 	c.PAbsent = 0
 	c.PBadType = 0
-	fam := Pick(r, []string{"flat", "flat", "nested-json", "nested-flat"})
+	fam := Pick(r, []string{"flat", "flat", "nested-json", "nested-flat", "ptr-root"})
 	w.Family = fam
+	ptrRoot := fam == "ptr-root"
+	if ptrRoot {
+		fam = "flat" // a top-level optional struct: Ptr(Struct{...}) over a flat record
+	}
 	var root *Node
 	switch fam {
 	case "flat":
@@ -70,6 +74,19 @@ func genC14(r *Rng, tier string) *World {
 		}
 	}
 	root.Tests, root.PTs = nil, nil
+	// an empty tag value names the field "" - legal, but then paths cannot be mapped back to fields (C10 covers it)
+	root.Walk(func(n *Node) {
+		for _, f := range n.Fields {
+			for i := range f.Tags {
+				if f.Tags[i].V.S == "" {
+					f.Tags[i].V = VS(f.Tags[i].K[:1] + "_" + f.Key)
+				}
+			}
+		}
+	})
+	if ptrRoot {
+		root = &Node{Kind: "ptr", Req: r.P(0.3), Elem: root}
+	}
 	w.Schemas = []*Node{root}
 	// the logical record
 	var rec func(n *Node) (Val, bool)
@@ -128,7 +145,22 @@ func genC14(r *Rng, tier string) *World {
 			return v, true
 		}
 	}
-	in, _ := rec(root)
+	var in Val
+	if ptrRoot {
+		in, _ = rec(root.Elem)
+		if len(in.M) == 0 {
+			// `{}` for a top-level optional struct means "absent" (pinned upstream by TestTopLevelOptionalStruct),
+			// an empty Go map does not: keep at least one key
+			f := root.Elem.Fields[0]
+			if f.N.IsPrim() {
+				in.M = append(in.M, KV{f.Key, genTyped(r, f.N.Kind)})
+			} else {
+				in.M = append(in.M, KV{f.Key, VL(genTyped(r, f.N.Elem.Kind))})
+			}
+		}
+	} else {
+		in, _ = rec(root)
+	}
 	hasSlice := false
 	root.Walk(func(n *Node) {
 		if n.Kind == "slice" {
@@ -355,6 +387,7 @@ func genC06(r *Rng, tier string) *World {
 	w := &World{Prop: "C06", Cfg: DrawDecCfg(r), Params: map[string]int{}}
 	c := DrawGenCfg(r, "parse")
 	c.PTags = Pick(r, []float64{0, 0.5})
+	c.EmptyTags = true
 	c.PPT = Pick(r, []float64{0, 0.2})
 	root := GenNode(r, &c, 0, true)
 	if r.P(0.15) && root.Kind == "struct" {
